@@ -273,3 +273,29 @@ func VerifCompressedCells() {
 	}
 	verifReach("held")
 }
+
+// VerifMultiNotShared: a multi-request whose response arrives while the connection is being
+// closed (resetting the read deadline fails) is completed once; the batches built afterwards —
+// possibly on other connections — never share one multi-request object.
+func VerifMultiNotShared() {
+	conn := &vConn{}
+	c := vNewClient(conn, 2)
+	reg := vReg("t,,1")
+	p := vPut(context.Background(), "a", reg)
+	m := newMulti(2)
+	m.add([]hrpc.Call{p})
+	verifAssert(c.trySend(m) == nil, "send")
+	mr := &pb.MultiResponse{RegionActionResult: []*pb.RegionActionResult{{ResultOrException: []*pb.ResultOrException{
+		{Index: proto.Uint32(1), Result: &pb.Result{}}}}}}
+	body := vAppendDelimited(nil, vWire(&pb.ResponseHeader{CallId: proto.Uint32(1)}, false))
+	body = vAppendDelimited(body, vWire(mr, false))
+	if verifBool() {
+		conn.failAt = conn.ops + 1 // the deadline reset that follows the response fails
+	}
+	c.receive(&vReader{b: vFrame(body, uint32(len(body)))})
+	vPending, vUnmarshalFails = nil, nil
+	verifAssert(vResults(p) == 1, "the call of the multi is completed exactly once")
+	m1, m2 := newMulti(2), newMulti(2)
+	verifAssert(m1 != m2, "two batches never share one multi-request object")
+	verifReach("distinct")
+}
